@@ -15,3 +15,9 @@ check("C03", "harness/c03_words.cxx", workers=(8, 16), wall=(20, 600),
       title="words are interned; content preserved")
 check("C07", "harness/c07_scopes.cxx", workers=(8, 16), wall=(20, 600),
       title="scopes, overload sets and declaration sets are mutually consistent")
+check("C16", "harness/c16_subst.cxx", workers=(8, 16), wall=(10, 200),
+      title="substitutions behave as finite maps")
+check("C02", "harness/c02_operands.cxx", workers=(8, 16), wall=(20, 400),
+      title="every factory-built node reports exactly the operands it was built from")
+check("C09", "harness/c09_types.cxx", workers=(8, 16), wall=(20, 400),
+      title="every node has the type its kind prescribes")
